@@ -846,9 +846,12 @@ class SymBool:
         return self.a.atoms() + self.b.atoms()
 
     def evalf(self, val, tol=0):
-        if self.op == 'gt': return self.a.evalf(val) > tol
-        if self.op == 'ge': return self.a.evalf(val) >= -tol
-        if self.op == 'eq': return abs(self.a.evalf(val)) <= tol
+        if self.op in ('gt', 'ge', 'eq'):
+            x = self.a.evalf(val)
+            if x != x: raise ValueError("condition depends on a value that is undefined at this point")
+            if self.op == 'gt': return x > tol
+            if self.op == 'ge': return x >= -tol
+            return abs(x) <= tol
         if self.op == 'not': return not self.a.evalf(val, tol)
         if self.op == 'and': return self.a.evalf(val, tol) and self.b.evalf(val, tol)
         return self.a.evalf(val, tol) or self.b.evalf(val, tol)
